@@ -346,8 +346,15 @@ pub fn mutate_pair(seed: &Seed, rng: &mut Rng) -> Option<(Vec<u8>, Mutation)> {
 /// every count field the sizes of the innermost 1..=3 enclosing boxes are raised together with
 /// the count (one dropped container check is enough for the count to become an allocation size).
 pub fn size_count_cases(seed: &Seed) -> Vec<(Vec<u8>, Mutation)> {
+    size_count_specs(seed).iter().map(|sp| apply_size_count(seed, sp)).collect()
+}
+
+/// (field index, starts of the enclosing boxes to enlarge innermost first, size value, count value)
+pub type SizeCountSpec = (usize, Vec<usize>, u64, u64);
+
+pub fn size_count_specs(seed: &Seed) -> Vec<SizeCountSpec> {
     let mut out = Vec::new();
-    for f in seed.fields.iter().filter(|f| f.kind == Kind::Count) {
+    for (fi, f) in seed.fields.iter().enumerate().filter(|(_, f)| f.kind == Kind::Count) {
         let mut chain: Vec<(usize, u64)> = seed.boxes.iter().cloned().filter(|(s, sz)| *s + 8 <= f.off && (f.off as u64) < *s as u64 + *sz).collect();
         chain.sort_by_key(|(_, sz)| *sz);
         if chain.is_empty() {
@@ -356,18 +363,25 @@ pub fn size_count_cases(seed: &Seed) -> Vec<(Vec<u8>, Mutation)> {
         for levels in 1..=chain.len().min(3) {
             for big in [0x7FFF_FFFFu64, 0xFFFF_FFFF, 0x00FF_FFFF] {
                 for cnt in [0x00A0_0000u64, 0x0555_5555, 0x0FFF_FFFF, 0x7FFF_FFFF, 0xFFFF_FFFF] {
-                    let mut b = seed.bytes.clone();
-                    for (k, (start, _)) in chain.iter().take(levels).enumerate() {
-                        // inner boxes stay a little smaller than the outer ones
-                        put(&mut b, *start, 4, big - 64 * (levels - 1 - k) as u64);
-                    }
-                    put(&mut b, f.off, f.width, cnt & if f.width >= 8 { u64::MAX } else { (1u64 << (8 * f.width)) - 1 });
-                    out.push((b, Mutation { desc: format!("{} @{} := {:#x} with the sizes of its {} innermost enclosing boxes := ~{:#x}", f.path, f.off, cnt, levels, big), cover: vec![format!("{}|size+count|{}", strip_digits(&f.path), levels)] }));
+                    out.push((fi, chain.iter().take(levels).map(|(s, _)| *s).collect(), big, cnt));
                 }
             }
         }
     }
     out
+}
+
+pub fn apply_size_count(seed: &Seed, spec: &SizeCountSpec) -> (Vec<u8>, Mutation) {
+    let (fi, starts, big, cnt) = spec;
+    let f = &seed.fields[*fi];
+    let levels = starts.len();
+    let mut b = seed.bytes.clone();
+    for (k, start) in starts.iter().enumerate() {
+        // inner boxes stay a little smaller than the outer ones
+        put(&mut b, *start, 4, big - 64 * (levels - 1 - k) as u64);
+    }
+    put(&mut b, f.off, f.width, cnt & if f.width >= 8 { u64::MAX } else { (1u64 << (8 * f.width)) - 1 });
+    (b, Mutation { desc: format!("{} @{} := {:#x} with the sizes of its {} innermost enclosing boxes := ~{:#x}", f.path, f.off, cnt, levels, big), cover: vec![format!("{}|size+count|{}", strip_digits(&f.path), levels)] })
 }
 
 pub fn mutate_havoc(seed: &Seed, others: &[Seed], rng: &mut Rng) -> (Vec<u8>, Mutation) {
@@ -815,7 +829,7 @@ fn measured<T>(obs: &mut Obs, cfg: &SweepCfg, ctl: &Rc<Ctl>, call: &str, f: impl
     }
 }
 
-fn render_all(mp4: &Mp4Reader<MonReader>) -> u64 {
+pub fn render_all(mp4: &Mp4Reader<MonReader>) -> u64 {
     // JSON and summary rendering of every parsed box (the mp4dump walk, extended)
     let mut n = 0u64;
     macro_rules! r {
